@@ -35,21 +35,24 @@ type ccSite struct {
 
 func compileCommandSites(c *an.Ctx, r *runnerRoles) []ccSite {
 	var out []ccSite
+	ccr := resolveCmdCompiler(c.P)
 	for _, fn := range c.P.Funcs {
 		if !inPkgs("pkg/runner")(fn) {
 			continue
 		}
-		for _, ci := range an.CallsIn(fn, fnCompileCmd) {
-			call, ok := ci.(*ssa.Call)
+		an.EachInstr(fn, func(in ssa.Instruction) {
+			call, ok := ccr.asCall(in)
 			if !ok {
-				continue
+				return
 			}
-			kind := commandKind(call.Call.Args[1], nil)
+			kind := ccCommandKind(call, nil)
 			if kind == "?" {
 				// the command is a parameter of a shared helper: classify by its callers
 				kinds := map[string]bool{}
-				for _, src := range c.P.DeepSources(call.Call.Args[1], 3, true) {
-					kinds[commandKind(src, nil)] = true
+				for _, cv := range ccr.arg(call, "command") {
+					for _, src := range c.P.DeepSources(cv, 3, true) {
+						kinds[commandKind(src, nil)] = true
+					}
 				}
 				var ks []string
 				for k := range kinds {
@@ -59,7 +62,7 @@ func compileCommandSites(c *an.Ctx, r *runnerRoles) []ccSite {
 				kind = strings.Join(ks, "+")
 			}
 			out = append(out, ccSite{call, fn, kind})
-		}
+		})
 	}
 	return out
 }
@@ -89,7 +92,8 @@ func checkC09(c *an.Ctx) {
 	cfg := chainCfg(p)
 	cfg.ParamDepth = 2
 	ct := p.Func("pkg/runner", "TaskCompiler", "CompileTask")
-	cc := p.Func("pkg/runner", "TaskCompiler", "CompileCommand")
+	ccr := resolveCmdCompiler(p)
+	cc := ccr.fn
 	if ct == nil || cc == nil {
 		c.Und("C09.0", "runner.(*TaskCompiler)", token.NoPos, "CompileTask / CompileCommand not found")
 		return
@@ -122,9 +126,14 @@ func checkC09(c *an.Ctx) {
 		}
 		return ""
 	}
-	for _, ci := range an.CallsIn(ct, fnCompileCmd) {
-		call := ci.(*ssa.Call)
-		for _, ch := range cfgLocal.Chains(argOf(call, cc, "env")) {
+	var ctSites []*ssa.Call
+	an.EachInstr(ct, func(in ssa.Instruction) {
+		if call, ok := ccr.asCall(in); ok {
+			ctSites = append(ctSites, call)
+		}
+	})
+	for _, call := range ctSites {
+		for _, ch := range cfgLocal.Chains(ccr.arg1(call, "env")) {
 			key := an.Short(ct) + ":env→CompileCommand " + ch.String()
 			good := len(ch) == 2 && ch[0].Label == "param:env" && ch[1].Label == "map:variation"
 			c.Check(good, "C09.1", key, call.Pos(), "the current variation is merged over the task's env", "each command's env must be [env parameter < current variation], got "+ch.String())
@@ -177,15 +186,16 @@ func checkC09(c *an.Ctx) {
 	// C09.4
 	for _, site := range compileCommandSites(c, r) {
 		key := an.Short(site.fn) + ":CompileCommand(" + site.kind + ")"
-		dir := an.AccessPath(argOf(site.call, cc, "dir"))
+		dirArg := ccr.arg1(site.call, "dir")
+		dir := an.AccessPath(dirArg)
 		okDir := dir.LastField() == "Dir" && an.TypeIs(dir.Base.Type(), "pkg/task", "Task") && len(dir.Fields) == 1
 		if !okDir {
 			// handed over through a helper's parameter or a parameter bundle
-			okDir = p.DeepFieldProvCallers(argOf(site.call, cc, "dir")) == "Task.Dir"
+			okDir = dirArg != nil && p.DeepFieldProvCallers(dirArg) == "Task.Dir"
 		}
 		c.Check(okDir, "C09.4", key+":dir", site.call.Pos(),
 			"passes the task's Dir", "does not pass the task's Dir as the job's dir: "+dir.String())
-		chains := cfg.Chains(argOf(site.call, cc, "env"))
+		chains := cfg.Chains(ccr.arg1(site.call, "env"))
 		if site.kind == "condition" {
 			for _, ch := range chains {
 				c.Note("C09.4", key+":env", site.call.Pos(), "the condition job is compiled with %s (outside the statement's clauses)", ch)
@@ -624,17 +634,10 @@ func executeEnv(c *an.Ctx, rule1, rule2 string) {
 // dirTables checks C09.3.
 func dirTables(c *an.Ctx, r *runnerRoles, cc *ssa.Function, rule string) {
 	p := c.P
-	dirParam := paramNamed(cc, "dir")
-	if dirParam < 0 {
+	ccr := resolveCmdCompiler(p)
+	if !ccr.hasRole("dir") {
 		c.Und(rule, an.Short(cc)+":dir", cc.Pos(), "CompileCommand has no dir parameter")
 		return
-	}
-	dp := cc.Params[dirParam]
-	var ctxParam *ssa.Parameter
-	for _, prm := range cc.Params {
-		if an.TypeIs(prm.Type(), "pkg/runner", "ExecutionContext") {
-			ctxParam = prm
-		}
 	}
 	isEmptyTest := func(v ssa.Value, of func(ssa.Value) bool) (neq bool, ok bool) {
 		bo, isb := v.(*ssa.BinOp)
@@ -649,11 +652,45 @@ func dirTables(c *an.Ctx, r *runnerRoles, cc *ssa.Function, rule string) {
 		}
 		return bo.Op == token.NEQ, true
 	}
-	isDirParam := func(v ssa.Value) bool { return an.SameValue(v, dp) }
-	isCtxDir := func(v ssa.Value) bool {
-		ap := an.AccessPath(v)
-		return ctxParam != nil && ap.LastField() == "Dir" && an.SameValue(ap.Base, ctxParam)
+	// the dir input and the context's Dir, as parameters or as fields of an options struct; st maps values
+	// of inlined helpers back
+	roleIs := func(v ssa.Value, role string, st *an.State) bool {
+		if ccr.isRole(v, role) {
+			return true
+		}
+		if st != nil {
+			for _, y := range st.RootChain(v) {
+				if ccr.isRole(y, role) {
+					return true
+				}
+			}
+		}
+		return false
 	}
+	ctxDir := func(v ssa.Value, st *an.State) bool {
+		cands := []ssa.Value{v}
+		if st != nil {
+			cands = st.RootChain(v)
+		}
+		for _, y := range cands {
+			for _, r := range an.ResolveAll(y) {
+				u, ok := r.(*ssa.UnOp)
+				if !ok || u.Op != token.MUL {
+					continue
+				}
+				fa, ok := u.X.(*ssa.FieldAddr)
+				if !ok || an.TypeField(fa) != "ExecutionContext.Dir" {
+					continue
+				}
+				if roleIs(fa.X, "ctx", st) {
+					return true
+				}
+			}
+		}
+		return false
+	}
+	isDirParam := func(v ssa.Value) bool { return roleIs(v, "dir", nil) }
+	isCtxDir := func(v ssa.Value) bool { return ctxDir(v, nil) }
 	var table []string
 	for _, row := range []struct {
 		name        string
@@ -665,33 +702,9 @@ func dirTables(c *an.Ctx, r *runnerRoles, cc *ssa.Function, rule string) {
 			Inline: func(g *ssa.Function) bool {
 				return an.Outer(g).Pkg == cc.Pkg && g != cc && an.Short(g) != "pkg/utils.RenderString"
 			}}
-		var curSt *an.State
-		rootIs := func(of func(ssa.Value) bool) func(ssa.Value) bool {
-			return func(v ssa.Value) bool {
-				if of(v) {
-					return true
-				}
-				if curSt != nil {
-					r := curSt.Root(v)
-					if of(r) {
-						return true
-					}
-					// a field of a bound parameter: executionCtx.Dir read inside a helper
-					ap := an.AccessPath(v)
-					if len(ap.Fields) == 1 && ap.Fields[0] == "Dir" && ctxParam != nil && curSt.SameRoot(ap.Base, ctxParam) {
-						return of == nil
-					}
-				}
-				return false
-			}
-		}
-		_ = rootIs
 		ex.AtomSt = func(v ssa.Value, st *an.State) (an.AVal, bool) {
-			isDirP := func(x ssa.Value) bool { return st.SameRoot(x, dp) }
-			isCtxD := func(x ssa.Value) bool {
-				ap := an.AccessPath(x)
-				return ctxParam != nil && ap.LastField() == "Dir" && len(ap.Fields) == 1 && st.SameRoot(ap.Base, ctxParam)
-			}
+			isDirP := func(x ssa.Value) bool { return roleIs(x, "dir", st) }
+			isCtxD := func(x ssa.Value) bool { return ctxDir(x, st) }
 			if neq, ok := isEmptyTest(v, isDirP); ok {
 				return an.ABool(neq == row.dirSet), true
 			}
@@ -702,11 +715,10 @@ func dirTables(c *an.Ctx, r *runnerRoles, cc *ssa.Function, rule string) {
 		}
 		classify := func(v ssa.Value, st *an.State) string {
 			root := st.Root(v)
-			rap := an.AccessPath(root)
 			switch {
-			case isDirParam(v) || st.SameRoot(v, dp):
+			case isDirParam(v) || roleIs(v, "dir", st):
 				return "dir"
-			case isCtxDir(v) || (ctxParam != nil && rap.LastField() == "Dir" && len(rap.Fields) == 1 && st.SameRoot(rap.Base, ctxParam)):
+			case isCtxDir(v) || ctxDir(v, st):
 				return "ctx"
 			}
 			if k, ok := an.ConstString(root); ok && k == "" {
